@@ -169,6 +169,7 @@ def main(a):
     drv = common.driver_path()
     quick = a.tier == "quick"
     reported = [0]
+    unconfirmed = [0]
     nontrivial = set()
     dist = {}
 
@@ -202,7 +203,15 @@ def main(a):
             elif iout != out or x[1] != "ok":
                 report(name, "output differs from the model: expected %s got %s (%s)" % (out[:12], iout[:12], x[1]), rp)
             elif y[3] != x[3] or y[0] != x[0]:
-                report(name, "two runs of the same program gave different interleavings (scheduling is not deterministic)", rp)
+                # confirm before claiming non-determinism: a run cut short by the time limit on a loaded machine also differs
+                # (seen once in a thorough run next to other jobs; the replays did not reproduce).  Two further runs, one at a
+                # time and with a generous limit, must differ from each other.
+                c1 = common.run_programs(exe, [src], timeout=60, env=env, collect="trace.txt", jobs=1)[0]
+                c2 = common.run_programs(exe, [src], timeout=60, env=env, collect="trace.txt", jobs=1)[0]
+                if c1[3] != c2[3] or c1[0] != c2[0]:
+                    report(name, "two runs of the same program gave different interleavings (scheduling is not deterministic)", rp)
+                else:
+                    unconfirmed[0] += 1
 
     if a.replay:
         rp = json.load(open(a.replay))
@@ -231,7 +240,12 @@ def main(a):
         nontrivial.add(("rel", hash(src) % 1000003))
         why = rel_judge(ws, x[0], x[1])
         if why is None and (x[0] != y[0] or x[1] != y[1]):
-            why = "two runs gave different output (scheduling is not deterministic)"
+            c1 = common.run_programs(exe, [src], timeout=60, jobs=1)[0]
+            c2 = common.run_programs(exe, [src], timeout=60, jobs=1)[0]
+            if c1[0] != c2[0] or c1[1] != c2[1]:
+                why = "two runs gave different output (scheduling is not deterministic)"
+            else:
+                unconfirmed[0] += 1
         if why:
             if os.environ.get("CB_VERIF_CENSUS"):
                 common.log("CENSUS rel: %s | %s" % (why, x[0].replace("\n", " / ")[:300]))
@@ -254,6 +268,7 @@ def main(a):
                    {"program": src, "impl_stdout": o[0], "impl_exit_class": o[1], "impl_stderr": o[2][-300:]})
     v.coverage.update({
         "evaluations": sum(dist.values()) * 2, "distinct_nontrivial": len(nontrivial), "distribution": dist,
+        "run_pairs_that_differed_but_were_not_confirmed_by_two_further_runs": unconfirmed[0],
         "rule": "exhaustive-small: 2 tasks x all bodies of <= 2 statements over {println, yield, 1- and 2-iteration loops} x 4 main "
                 "patterns (no await, await in both orders, main loop + late await) and 3-task sets with a nested await; random: "
                 "1-4 (large: 1-6) async functions forming a spawn DAG, bodies of println / yield / counted loops / spawns / "
